@@ -1227,6 +1227,121 @@ let run_pc_ipa c =
      | _ -> ())
   | r -> obs1 "trim" "S" (class_of r)
 
+(* ---------------- PST13 (trait-level flow, free module over (g, gamma_g, G)) ---------------- *)
+let mpoly_of_toks (toks : string list) : (Field.coq_F * (Datatypes.nat * Datatypes.nat) list) list =
+  if toks = [ "-" ] then [] else begin
+    let a = Array.of_list toks in
+    let n = Array.length a in
+    let rec go i acc =
+      if i >= n then List.rev acc
+      else begin
+        let coeff = f_of_str a.(i) in
+        let k = int_of_string a.(i + 1) in
+        let t = List.init k (fun j -> (nat_of_int (int_of_string a.(i + 2 + 2 * j)), nat_of_int (int_of_string a.(i + 3 + 2 * j)))) in
+        go (i + 2 + 2 * k) ((coeff, t) :: acc)
+      end in
+    go 0 []
+  end
+
+let run_pc_pst13 c =
+  let fo = fo () in
+  if not (has c "betas") then () else begin
+    let nv = int1 c "key_nv" and s = int1 c "supported_degree" in
+    let nvn = nat_of_int nv and sn = nat_of_int s in
+    let betas = if get c "betas" = [ "-" ] then [] else fs_of c "betas" in
+    let n = int1 c "n" in
+    let polys = Array.init n (fun i -> mpoly_of_toks (get c (Printf.sprintf "cpoly.%d" i))) in
+    let has_rng = str1 c "commit_rng" = "some" in
+    let res = Array.make n None and ok = ref true and cls = ref "ok" in
+    Array.iteri (fun i p ->
+        if !ok then begin
+          let hiding = opt_nat (str1 c (Printf.sprintf "hiding.%d" i)) in
+          let blind = if has c (Printf.sprintf "blind.%d" i) then mpoly_of_toks (get c (Printf.sprintf "blind.%d" i)) else [] in
+          match PST13H.ph_commit1 fo nvn sn betas p hiding has_rng blind with
+          | Result.Ok (cm, st) -> res.(i) <- Some (cm, st)
+          | r -> ok := false; cls := class_of r
+        end) polys;
+    obs1 "commit" "S" !cls;
+    if !ok then begin
+      let cs = Array.map (function Some x -> x | None -> assert false) res in
+      Array.iteri (fun i (cm, _) -> obs (Printf.sprintf "c.%d" i) "L:pbasis" [ gv_tok cm ]) cs;
+      let npts = int1 c "npts" in
+      let pts = Array.init npts (fun j -> fs_of c (Printf.sprintf "pt.%d" j)) in
+      let nops = int1 c "nops" in
+      let recs = Array.make nops None in
+      let tape_of k = if has c k then fs_of c k else [] in
+      let chk cml z values pf chal = match PST13H.ph_check fo nvn betas cml z values pf chal with
+        | Result.Ok (b, _) -> Result.Ok b | Result.Err e -> Result.Err e | Result.Panic -> Result.Panic in
+      for t = 0 to nops - 1 do
+        let k x = Printf.sprintf "%s.%d" x t in
+        match get c (k "op") with
+        | "single" :: pj :: sel ->
+          let pj = int_of_string pj and sel = List.map int_of_string sel in
+          let z = pts.(pj) in
+          let items = List.map (fun i -> (polys.(i), snd cs.(i))) sel in
+          let op = PST13H.ph_open fo nvn sn betas items z (tape_of (k "chal")) in
+          obs1 (k "open") "S" (class_of op);
+          (match op with
+           | Result.Ok (pf, _) ->
+             obs (Printf.sprintf "pf.%d.w" t) "L:pbasis" (dash (List.map gv_tok pf.PST13H.pp_w));
+             obs1 (Printf.sprintf "pf.%d.rv" t) "F" (match pf.PST13H.pp_rv with Some r -> f_to_str r | None -> "none");
+             let values = List.map (fun i -> PST13.eval_mpoly fo z polys.(i)) sel in
+             obs (k "evals") "F" (fs_to values);
+             obs1 (k "check") "S" (decision (chk (List.map (fun i -> fst cs.(i)) sel) z values pf (tape_of (k "vchal"))));
+             recs.(t) <- Some (pj, sel, values, pf)
+           | _ -> ())
+        | _ -> ()
+      done;
+      List.iter (fun (m, mv) ->
+          let name = Printf.sprintf "mut.%d" m in
+          let t = int_of_string (List.nth mv 0) and kind = List.nth mv 1 in
+          let args = List.tl (List.tl mv) in
+          let arg i = List.nth args i in
+          if t < nops && has c (Printf.sprintf "mchal.%d" m) then begin
+            let mchal = fs_of c (Printf.sprintf "mchal.%d" m) in
+            let cma = Array.init n (fun i -> fst cs.(i)) in
+            match recs.(t) with
+            | Some (pj, sel, values, pf) ->
+              let pj = ref pj and sel = ref sel and values = ref values and pf = ref pf and ok = ref true in
+              let one = tof Z.one and zero = tof Z.zero in
+              (match kind with
+               | "value" -> let kk = int_of_string (arg 0) in
+                 if kk < List.length !values then values := List.mapi (fun i v -> if i = kk then fo.Field.fadd v (f_of_str (arg 1)) else v) !values else ok := false
+               | "point" -> pj := int_of_string (arg 0)
+               | "comm_swap" -> let i = int_of_string (arg 0) and j = int_of_string (arg 1) in cma.(i) <- fst cs.(j)
+               | "drop_poly" -> let kk = int_of_string (arg 0) in
+                 if kk < List.length !sel then begin
+                   sel := List.filteri (fun i _ -> i <> kk) !sel; values := List.filteri (fun i _ -> i <> kk) !values end else ok := false
+               | "sponge_pre" -> ()
+               | "proof_mut" | "proof_mut_v" ->
+                 let w = !pf.PST13H.pp_w and rv = !pf.PST13H.pp_rv in
+                 let j = (try int_of_string (arg 1) with _ -> 0) in
+                 let gstd f = [ zero; zero; f ] in
+                 (match arg 0 with
+                  | "w_tamper" -> if w = [] then ok := false else
+                      let kk = j mod List.length w in
+                      pf := { PST13H.pp_w = List.mapi (fun i x -> if i = kk then gstd (f_of_str (arg 2)) else x) w; pp_rv = rv }
+                  | "w_shorter" -> if w = [] then ok := false else pf := { PST13H.pp_w = List.rev (List.tl (List.rev w)); pp_rv = rv }
+                  | "w_longer" -> pf := { PST13H.pp_w = w @ [ gstd (f_of_str (arg 2)) ]; pp_rv = rv }
+                  | "w_swap" -> if List.length w < 2 then ok := false else begin
+                      let kk = j mod (List.length w - 1) in
+                      let a = List.nth w kk and b = List.nth w (kk + 1) in
+                      if gv_tok (IPA.gvsub fo a b) = gv_tok [] || IPA.gvzero fo (IPA.gvsub fo a b) then ok := false
+                      else pf := { PST13H.pp_w = List.mapi (fun i x -> if i = kk then b else if i = kk + 1 then a else x) w; pp_rv = rv } end
+                  | "rv" -> (match rv with Some r -> pf := { PST13H.pp_w = w; pp_rv = Some (fo.Field.fadd r one) } | None -> ok := false)
+                  | "rv_drop" -> (match rv with Some _ -> pf := { PST13H.pp_w = w; pp_rv = None } | None -> ok := false)
+                  | _ -> ok := false);
+                 if kind = "proof_mut_v" && !ok then
+                   values := (match !values with v :: tl -> fo.Field.fadd v one :: tl | [] -> [])
+               | _ -> ok := false);
+              if !ok then
+                obs1 name "S" (decision (chk (List.map (fun i -> cma.(i)) !sel) pts.(!pj) !values !pf mchal))
+            | None -> ()
+          end)
+        (indexed c "mut")
+    end
+  end
+
 let run_pc c =
   if has c "c19" then run_c19 c else begin
   (match str1 c "scheme" with
@@ -1234,6 +1349,7 @@ let run_pc c =
    | "sonic" when has c "beta" -> run_pc_sonic c
    | "hyrax" when has c "ctape" -> run_pc_hyrax c
    | "ipa" when has c "ctape" -> run_pc_ipa c
+   | "pst13" when has c "betas" -> run_pc_pst13 c
    | _ -> ());
   if has c "c12" then run_c12 c end
 
